@@ -823,7 +823,7 @@ class StaticDist(DelayDistribution):
                 N_grid_points=int(1e3),
                 grid_min=float(qs_component_min.min()) * 0.9,
                 grid_max=float(qs_component_max.max()) * 1.1,
-            )[0]
+            )
             return qs.reshape(shape)
         else:
             raise NotImplementedError(f"Quantile not implemented for distribution {self.dist}.")
